@@ -424,6 +424,15 @@ def apply_fn_block(blk, unit_state):
         do_rewrite(sarg, slines, False)
     for sarg, slines in sec_by.get('rewrite-re', []):
         do_rewrite(sarg, slines, True)
+    # a rewrite may introduce line breaks (written \n in the template): split into lines, same source line
+    nl = []
+    for l in lines:
+        if '\\n' in l.text and l.kind == 'rewritten':
+            for part in l.text.split('\\n'):
+                nl.append(Line(part, l.src, 'rewritten'))
+        else:
+            nl.append(l)
+    lines = nl
 
     # ---- compute insertion points on the transformed text
     inserts = []   # (line_idx, col or None, [Line])   col!=None: split line at col
